@@ -163,3 +163,65 @@ __CPROVER_ensures(log_level >= log_levels_strings_size ==> g_exc == EXC_STD) /*@
 ''')],
     harness='  LogLevel l; StrId const* t; size_t n; log_level_to_string(l, t, n);', dropped=['std::string / string_view as content ids', 'text of the error message'], trusted=[], min_obligations=5)
 UNITS.append(ll_to_string)
+
+# ------------------------------------------------------------------------------------------ PatternFormatter::_set_pattern: names in enum order
+import re as _re, os as _os
+from vlib.extract import REPO as _REPO
+
+
+def _attribute_enum():
+    """the enumerators of PatternFormatter::Attribute, in the order of the source (read on every run)"""
+    t = open(_os.path.join(_REPO, 'include', H)).read()
+    m = _re.search(r'enum\s+Attribute\s*:\s*uint8_t\s*\{(.*?)\}', t, _re.S)
+    names = [x.split('=')[0].strip() for x in _re.sub(r'//[^\n]*|/\*.*?\*/', '', m.group(1), flags=_re.S).split(',') if x.strip()] if m else []
+    return [n for n in names if n != 'ATTR_NR_ITEMS']
+
+
+_ENUM = _attribute_enum()
+# SPEC (from the property's list of attributes): the pattern name of each attribute
+_SPEC_NAME = {'Time': 'time', 'FileName': 'file_name', 'CallerFunction': 'caller_function', 'LogLevel': 'log_level', 'LogLevelShortCode': 'log_level_short_code', 'LineNumber': 'line_number',
+              'Logger': 'logger', 'FullPath': 'full_path', 'ThreadId': 'thread_id', 'ThreadName': 'thread_name', 'ProcessId': 'process_id', 'SourceLocation': 'source_location',
+              'ShortSourceLocation': 'short_source_location', 'Message': 'message', 'Tags': 'tags', 'NamedArgs': 'named_args'}
+_NAMES = sorted(set(_SPEC_NAME.values()))
+SP_PRELUDE = ('enum { ' + ', '.join('A_%s' % a for a in _ENUM) + ', A_NR };   /* PatternFormatter::Attribute as the source orders it */\n' +
+              'enum { N_none, ' + ', '.join('N_%s' % n for n in _NAMES) + ' };   /* pattern names */\n' +
+              '#define SPEC_NAME(a) (' + ' '.join('(a) == A_%s ? N_%s :' % (a, _SPEC_NAME.get(a, 'none')) for a in _ENUM) + ' N_none)\n' + r'''
+typedef struct PFs { int dummy; } PFs;
+int g_a; int g_name_at_a; size_t g_named_args, g_gens; size_t g_set_args_for_a; int g_set_name_for_a;
+static inline void GEN_BEGIN(void) { g_gens++; }
+static inline int ARG(int k, int name) { g_named_args++; if (k == g_a) g_name_at_a = name; return 0; }
+static inline void SET_ARG(int attr, int name) { if (attr == g_a) { g_set_args_for_a++; g_set_name_for_a = name; } }
+''')
+_counter = [0]
+
+
+def _arg_rule(m):
+    k = _counter[0]
+    _counter[0] += 1
+    return 'ARG(%d, N_%s)' % (k, m.group(1))
+
+
+def _reset_counter(m):
+    _counter[0] = 0
+    return 'GEN_BEGIN(); ('
+
+
+set_pattern = dict(
+    name='PF.set_pattern', primary='C12', props={'C12'}, kind='S',
+    desc='PatternFormatter::_set_pattern: the named arguments handed to the pattern rewrite are the attribute names in the order of the Attribute enum (slot k of the rewritten pattern belongs to attribute k), and every attribute\'s slot is bound under its own name',
+    structs=[], prelude=SP_PRELUDE, enforce='PF__set_pattern', replace=[],
+    funcs=[dict(src=dict(header=H, cls='PatternFormatter', name='_set_pattern'), src_params=[], cfun='PF__set_pattern', sig='void PF__set_pattern(PFs* self)', cls_c='PF', member_fields=[],
+                pre_rules=[(r'using\s+namespace\s+fmtquill::literals\s*;', ''),
+                           (r'std::tie\(_fmt_format,\s*_order_index\)\s*=\s*_generate_fmt_format_string\(\s*_is_set_in_pattern,\s*_options\.format_pattern,', _reset_counter, '!'),
+                           (r'"(\w+)"_a\s*=\s*""', _arg_rule),
+                           (r'_set_arg<Attribute::(\w+)>\((?:std::string_view\()?"(\w+)"\)?\)\s*;', r'SET_ARG(A_\1, N_\2);')],
+                contract=r'''
+__CPROVER_requires(__CPROVER_is_fresh(self, sizeof(*self)) && g_a >= 0 && g_a < A_NR && g_named_args == 0 && g_gens == 0 && g_set_args_for_a == 0 && g_name_at_a == N_none)
+__CPROVER_assigns(g_name_at_a, g_named_args, g_gens, g_set_args_for_a, g_set_name_for_a)
+__CPROVER_ensures(g_gens == 1 && g_named_args == A_NR && g_name_at_a == SPEC_NAME(g_a)) /*@ C12 "the k-th name given to the pattern rewrite is the pattern name of attribute k: %(name) is substituted by that attribute's value, not a neighbour's" */
+__CPROVER_ensures(g_set_args_for_a == 1 && g_set_name_for_a == SPEC_NAME(g_a)) /*@ C12 "every attribute's slot is bound once, under its own name" */
+''')],
+    harness='  PFs* f; PF__set_pattern(f);',
+    dropped=['fmt named-argument objects ("name"_a = ""): the name and its position in the argument list are kept', 'string_view / char const* flavour of the placeholder values'],
+    trusted=['_generate_fmt_format_string maps the k-th named argument to slot k (bounded stand-in PF.pattern)', 'the pattern names of the sixteen attributes are taken from the property statement (table SPEC_NAME)'], min_obligations=5)
+UNITS.append(set_pattern)
